@@ -284,6 +284,12 @@ func c20(c *Ctx) {
 		nc := 1 + r.Intn(4)
 		for k := 0; k < nc; k++ {
 			cmd := []string{Pick(r, []string{"install", "install", "update", "uninstall"})}
+			if r.Chance(18) {
+				// the implicit installation other commands perform on their way (installHooks(false))
+				cmd = Pick(r, [][]string{{"track", "*.c20x"}, {"untrack", "*.c20x"}, {"fsck"}})
+				cs.Cmds = append(cs.Cmds, cmd)
+				continue
+			}
 			if strings.HasPrefix(cs.Scope, "local") && cmd[0] != "update" {
 				cmd = append(cmd, "--local")
 			}
@@ -321,6 +327,10 @@ func c20(c *Ctx) {
 		}(ci, cs)
 	}
 	wg.Wait()
+	if c.Replay == "" {
+		cl, ci, cc := c20Clone(c, r.Fork())
+		mlines, mimpl, mcase = append(mlines, cl...), append(mimpl, ci...), append(mcase, cc...)
+	}
 	model, err := c.Or.Ask(mlines)
 	if err != nil {
 		c.R.Add(Finding{Kind: "diff", What: "oracle process failed: " + err.Error(), Broken: "corr.C20.hooks"})
@@ -421,7 +431,12 @@ func runC20Case(c *Ctx, ci int, cs c20Case) (mlines, mimpl []string) {
 			cwd = filepath.Join(dir, "sub", "dir")
 			os.MkdirAll(cwd, 0o755)
 		}
+		implicit := cmd[0] == "track" || cmd[0] == "untrack" || cmd[0] == "fsck"
 		out, code := runIn(cwd, env, c.Lfs, cmd...)
+		if implicit {
+			os.Remove(filepath.Join(cwd, ".gitattributes"))
+			c.R.Count("cmd.implicit-install")
+		}
 		if cwd != dir {
 			if ents, _ := os.ReadDir(cwd); len(ents) > 0 {
 				fail(fmt.Sprintf("`git lfs %s` run from a sub-directory created files there", strings.Join(cmd, " ")), fmt.Sprint(len(ents))+" entries, e.g. "+ents[0].Name())
@@ -462,6 +477,9 @@ func runC20Case(c *Ctx, ci int, cs c20Case) (mlines, mimpl []string) {
 			if force && cmd[0] != "uninstall" {
 				userOwned[i] = false
 			}
+		}
+		if implicit && fmt.Sprint(before.Filter) != fmt.Sprint(after.Filter) {
+			fail(fmt.Sprintf("`git lfs %s` changed filter.lfs.* settings", strings.Join(cmd, " ")), fmt.Sprint(before.Filter)+" -> "+fmt.Sprint(after.Filter))
 		}
 		// the scope that the command does not address is never written
 		if fmt.Sprint(before.Other) != fmt.Sprint(after.Other) {
@@ -563,6 +581,144 @@ func runC20Case(c *Ctx, ci int, cs c20Case) (mlines, mimpl []string) {
 		}
 		c.R.Sample(map[string]interface{}{"hooks": ks, "filter": cs.Filter, "scope": cs.Scope, "cmds": cs.Cmds})
 	}
+	return
+}
+
+// c20Clone: `git lfs clone` installs the hooks into the repository it has just created — which is not
+// empty of user hooks when the user's init.templateDir ships some, or when a global core.hooksPath
+// names a shared directory. installHooks(false): user hooks stay, the conflict is reported.
+func c20Clone(c *Ctx, r *Rng) (mlines, mimpl, mcase []string) {
+	n := c.N(24, 300)
+	src := filepath.Join(c.Work, "c20-clone-src.git")
+	seed := filepath.Join(c.Work, "c20-clone-seed")
+	if gitInit(seed) != nil {
+		return
+	}
+	os.WriteFile(filepath.Join(seed, "readme.txt"), []byte("plain\n"), 0o644)
+	gitIn(seed, nil, "add", ".")
+	gitIn(seed, nil, "commit", "-qm", "c1")
+	runIn(c.Work, nil, "git", "clone", "-q", "--bare", seed, src)
+	type job struct {
+		i  int
+		rs *Rng
+	}
+	var mu sync.Mutex
+	var wg sync.WaitGroup
+	sem := make(chan struct{}, 8)
+	for i := 0; i < n; i++ {
+		rs := r.Fork()
+		wg.Add(1)
+		sem <- struct{}{}
+		go func(i int, r *Rng) {
+			defer wg.Done()
+			defer func() { <-sem }()
+			base := filepath.Join(c.Work, fmt.Sprintf("c20c-%d", i))
+			os.MkdirAll(base, 0o755)
+			defer os.RemoveAll(base)
+			mode := Pick(r, []string{"template", "template", "global-hookspath"})
+			cfgFile := filepath.Join(base, "gitconfig")
+			hooksSrc := filepath.Join(base, "tmpl", "hooks")
+			os.MkdirAll(hooksSrc, 0o755)
+			conf := "[user]\n\tname = v\n\temail = v@example.invalid\n"
+			if mode == "template" {
+				conf += "[init]\n\ttemplateDir = " + filepath.Join(base, "tmpl") + "\n"
+			} else {
+				conf += "[core]\n\thooksPath = " + hooksSrc + "\n"
+			}
+			os.WriteFile(cfgFile, []byte(conf), 0o644)
+			var hs []hookState
+			var kinds []string
+			for _, h := range c20Hooks {
+				st := genHookState(r, c, h)
+				if st.Kind == "symlink-user" {
+					st = hookState{Kind: "user", Content: st.Content, Mode: 0o755, User: true}
+				}
+				if st.Kind == "nonexec-user" && mode == "template" {
+					st.Mode = 0o755 // what the template copy keeps of the mode is Git's business
+					st.Kind = "user"
+				}
+				hs = append(hs, st)
+				kinds = append(kinds, st.Kind)
+				if st.Kind != "absent" {
+					os.WriteFile(filepath.Join(hooksSrc, h), st.Content, st.Mode)
+					os.Chmod(filepath.Join(hooksSrc, h), st.Mode)
+				}
+			}
+			args := []string{"clone", src, "dst"}
+			skipRepo := r.Chance(15)
+			if skipRepo {
+				args = []string{"clone", "--skip-repo", src, "dst"}
+			}
+			env := []string{"GIT_CONFIG_GLOBAL=" + cfgFile, "PATH=" + filepath.Dir(c.Lfs) + ":" + os.Getenv("PATH")}
+			out, code := runIn(base, env, c.Lfs, args...)
+			enc := fmt.Sprintf("C20 clone mode=%s hooks=%s args=%s", mode, strings.Join(kinds, ","), strings.Join(args[:len(args)-2], " "))
+			nontriv := false
+			for _, st := range hs {
+				if st.Kind != "absent" && st.Kind != "current" {
+					nontriv = true
+				}
+			}
+			c.R.Eval(enc, nontriv)
+			c.R.Count("clone." + mode)
+			dir := filepath.Join(base, "dst", ".git", "hooks")
+			if mode == "global-hookspath" {
+				dir = hooksSrc
+			}
+			if _, err := os.Stat(filepath.Join(base, "dst", ".git")); err != nil {
+				c.R.Add(Finding{Kind: "oracle", What: "`git lfs clone` did not produce a repository", Case: enc, Impl: clip(out, 300)})
+				return
+			}
+			fail := func(what, impl string) {
+				c.R.Add(Finding{Kind: "oracle", What: what, Case: enc, Impl: clip(impl, 400)})
+			}
+			var fs, got []string
+			conflict := false
+			for k, h := range c20Hooks {
+				st := hs[k]
+				b, err := os.ReadFile(filepath.Join(dir, h))
+				if st.User {
+					if err != nil || !bytes.Equal(b, st.Content) {
+						fail(fmt.Sprintf("`git lfs clone` changed or removed a %s hook that git-lfs did not generate (%s, from %s)", h, st.Kind, mode), fmt.Sprintf("%d bytes now, %d planted; exit %d: %s", len(b), len(st.Content), code, clip(out, 200)))
+					}
+					if !skipRepo {
+						conflict = true
+					}
+				}
+				if skipRepo {
+					if (err != nil) != (st.Kind == "absent") || (err == nil && !bytes.Equal(b, st.Content)) {
+						fail("`git lfs clone --skip-repo` touched hook files", h)
+					}
+				}
+				switch {
+				case st.Kind == "absent":
+					fs = append(fs, "none")
+				case len(st.Content) == 0:
+					fs = append(fs, "-")
+				default:
+					fs = append(fs, hx(st.Content))
+				}
+				if err != nil {
+					got = append(got, "none")
+				} else {
+					got = append(got, shaOrDash(b))
+				}
+			}
+			if conflict && (code == 0 || !strings.Contains(out, "Hook already exists")) {
+				fail("`git lfs clone` met a user-owned hook and did not report the conflict", fmt.Sprintf("exit %d: %s", code, clip(out, 200)))
+			}
+			if !conflict && code != 0 {
+				fail("`git lfs clone` failed although no hook conflicts", fmt.Sprintf("exit %d: %s", code, clip(out, 300)))
+			}
+			if !skipRepo {
+				mu.Lock()
+				mlines = append(mlines, fmt.Sprintf("C20 all install 0 %s", strings.Join(fs, ",")))
+				mimpl = append(mimpl, strings.Join(got, ","))
+				mcase = append(mcase, enc)
+				mu.Unlock()
+			}
+		}(i, rs)
+	}
+	wg.Wait()
 	return
 }
 
